@@ -15,9 +15,12 @@ import (
 
 	"pgregory.net/rapid"
 
+	"github.com/opencontainers/go-digest"
 	"github.com/regclient/regclient"
 	"github.com/regclient/regclient/scheme"
 	"github.com/regclient/regclient/scheme/reg"
+
+	"github.com/regclient/regclient/types/descriptor"
 	"github.com/regclient/regclient/types/manifest"
 	"github.com/regclient/regclient/types/ref"
 	"github.com/regclient/regclient/zz_verif/audit"
@@ -38,11 +41,12 @@ func TestMain(m *testing.M) {
 
 // Feat is the generated registry / client configuration.
 type Feat struct {
-	TagDelete    bool  `json:"tag_delete"`       // registry implements DELETE /manifests/<tag>
-	TagPage      int   `json:"tag_page"`         // server-side cap of the tag-list page size (0 = none)
-	HeadNoDigest bool  `json:"head_no_digest"`   // manifest HEAD answers without Docker-Content-Digest
-	Cache        bool  `json:"cache"`            // client-side manifest cache enabled
-	Delays       []int `json:"delays,omitempty"` // request latency plan in microseconds (cyclic)
+	TagDelete    bool  `json:"tag_delete"`            // registry implements DELETE /manifests/<tag>
+	TagPage      int   `json:"tag_page"`              // server-side cap of the tag-list page size (0 = none)
+	HeadNoDigest bool  `json:"head_no_digest"`        // manifest HEAD answers without Docker-Content-Digest
+	Cache        bool  `json:"cache"`                 // client-side manifest cache enabled
+	Delays       []int `json:"delays,omitempty"`      // request latency plan in microseconds (cyclic)
+	NoRepo404    bool  `json:"no_repo_404,omitempty"` // tags/list of a repository that was never written answers 404 NAME_UNKNOWN (and the seedless repository does not exist yet)
 }
 
 // Step is one operation of a history.
@@ -57,6 +61,15 @@ type Step struct {
 	Limit    int    `json:"limit,omitempty"`     // list: client-side limit (0 = none)
 	Last     int    `json:"last,omitempty"`      // list: 0 = none, else 1+index of the tag passed as "last"
 	Batch    []Step `json:"batch,omitempty"`     // batch: operations issued concurrently on one client
+	// Var is a variant of how the operation is issued (ways /repo itself reaches the API):
+	//   tagdig  reference carries tag AND digest (regctl manifest delete --force-tag-dereference, "repo:tag@digest" arguments)
+	//   bare    reference without tag (means "latest"; only drawn for that tag)
+	//   child   put by digest with WithManifestChild (what image copy does for index entries)
+	//   delman  manifest delete with WithManifest(m)
+	//   noreq   head without WithManifestRequireDigest
+	//   withref manifest object built with manifest.WithRef(target) like regctl manifest put
+	//   cancel  the call gets an already cancelled context (either outcome; an error must be a no-op)
+	Var string `json:"var,omitempty"`
 }
 
 // Case is one generated history on one system.
@@ -65,6 +78,12 @@ type Case struct {
 	Feat   Feat   `json:"feat"`
 	Seed   Seed   `json:"seed"`
 	Hist   []Step `json:"hist"`
+	// Pool selects the 5 manifests of the universe this case works with (nil = M0..M4)
+	Pool []int `json:"pool,omitempty"`
+	// CloseEach: every mutating operation is followed by Close (what every regctl command does)
+	CloseEach bool `json:"close_each,omitempty"`
+	// Fresh: every step uses a new client (one CLI process per command)
+	Fresh bool `json:"fresh,omitempty"`
 }
 
 var fullNames = []string{"docker.io/library/app", "localhost:5000/team/app", "app"}
@@ -144,19 +163,29 @@ func genStep(t *rapid.T, l string, kinds []string, tagIdx int) Step {
 	}
 	// low manifest indices are favoured so that tags share manifests often
 	mn := rapid.SampledFrom([]int{0, 0, 0, 1, 1, 2, 2, 3, 4}).Draw(t, l+"_man")
+	variant := func(choices ...string) string {
+		if tagIdx >= 0 || rapid.IntRange(0, 4).Draw(t, l+"_hasvar") != 0 {
+			return "" // operations of a batch are issued plainly
+		}
+		return rapid.SampledFrom(choices).Draw(t, l+"_var")
+	}
 	switch k {
 	case "put":
-		return Step{Op: "put", Tag: tg, Man: mn}
+		s := Step{Op: "put", Tag: tg, Man: mn, Var: variant("tagdig", "tagdig", "bare", "withref", "cancel")}
+		if s.Var == "bare" {
+			s.Tag = 1 // "latest"
+		}
+		return s
 	case "putdig":
-		return Step{Op: "put", ByDigest: true, Man: mn}
+		return Step{Op: "put", ByDigest: true, Man: mn, Var: variant("child", "child", "withref", "cancel")}
 	case "putsrc":
 		s := Step{Op: "put", Tag: tg, Man: mn, ByDigest: rapid.IntRange(0, 2).Draw(t, l+"_bydig") != 0,
 			Src: rapid.SampledFrom([]string{"same", "same", "side"}).Draw(t, l+"_src"), SrcTag: rapid.IntRange(0, len(Tags)-1).Draw(t, l+"_srctag")}
 		return s
 	case "tagdel":
-		return Step{Op: "tagdel", Tag: tg}
+		return Step{Op: "tagdel", Tag: tg, Var: variant("cancel")}
 	case "mandel":
-		return Step{Op: "mandel", Man: mn, CheckRef: rapid.Bool().Draw(t, l+"_checkref")}
+		return Step{Op: "mandel", Tag: tg, Man: mn, CheckRef: rapid.Bool().Draw(t, l+"_checkref"), Var: variant("tagdig", "tagdig", "delman", "delman", "cancel")}
 	case "list":
 		s := Step{Op: "list"}
 		if rapid.Bool().Draw(t, l+"_haslimit") {
@@ -168,6 +197,17 @@ func genStep(t *rapid.T, l string, kinds []string, tagIdx int) Step {
 		return s
 	case "head", "get":
 		s := Step{Op: k, Tag: tg, Man: mn, ByDigest: rapid.IntRange(0, 2).Draw(t, l+"_bydig") == 0}
+		if k == "head" {
+			s.Var = variant("tagdig", "bare", "noreq", "noreq")
+		} else {
+			s.Var = variant("tagdig", "bare")
+		}
+		switch s.Var {
+		case "tagdig":
+			s.ByDigest = true // the digest of a tag+digest reference decides
+		case "bare":
+			s.ByDigest, s.Tag = false, 1
+		}
 		return s
 	case "close":
 		return Step{Op: "close"}
@@ -192,7 +232,16 @@ func gen(t *rapid.T) Case {
 		if rapid.IntRange(0, 2).Draw(t, "has_delays") == 0 {
 			c.Feat.Delays = rapid.SliceOfN(rapid.SampledFrom([]int{0, 0, 30, 200}), 1, 5).Draw(t, "delays")
 		}
+		c.Feat.NoRepo404 = rapid.IntRange(0, 2).Draw(t, "no_repo_404") == 0
 	}
+	// M0 and M1 (shared layers) always, plus three of the other seven
+	if rapid.Bool().Draw(t, "pool_default") {
+		c.Pool = append([]int{}, DefaultPool...)
+	} else {
+		c.Pool = append([]int{0, 1}, rapid.Permutation([]int{2, 3, 4, 5, 6, 7, 8}).Draw(t, "pool")[:3]...)
+	}
+	c.CloseEach = c.System == "layout" && rapid.IntRange(0, 3).Draw(t, "close_each") == 0
+	c.Fresh = rapid.IntRange(0, 4).Draw(t, "fresh") == 0
 	c.Seed = genSeed(t, c.System == "layout")
 	n := rapid.IntRange(1, 25).Draw(t, "n")
 	for i := 0; i < n; i++ {
@@ -219,6 +268,7 @@ type env struct {
 	rc   *regclient.RegClient
 	base ref.Ref
 	sref ref.Ref
+	conf rcutil.Conf
 	mod  *model
 	lay  bool
 
@@ -235,8 +285,16 @@ type env struct {
 
 func (e *env) class(s string) { e.classes[s] = true }
 
-func newMan(pm PoolMan) (manifest.Manifest, error) {
-	return manifest.New(manifest.WithRaw(append([]byte{}, pm.Body...)))
+// newMan builds a fresh manifest object (never shared between goroutines).
+func newMan(pm PoolMan, withRef *ref.Ref) (manifest.Manifest, error) {
+	opts := []manifest.Opts{manifest.WithRaw(append([]byte{}, pm.Body...))}
+	if pm.NeedDesc {
+		opts = append(opts, manifest.WithDesc(descriptor.Descriptor{MediaType: pm.MediaType, Digest: digest.Digest(pm.Digest), Size: int64(len(pm.Body))}))
+	}
+	if withRef != nil {
+		opts = append(opts, manifest.WithRef(*withRef))
+	}
+	return manifest.New(opts...)
 }
 
 func (e *env) tagRef(t string) ref.Ref { return e.base.SetTag(t) }
@@ -276,15 +334,18 @@ func setup(c Case, ev *evid.Collector) (*env, error) {
 		}
 	} else {
 		e.h = e.m.AddHost(regHost)
-		e.h.Feat = rm.Features{TagDelete: c.Feat.TagDelete, TagPage: c.Feat.TagPage, HeadNoDigest: c.Feat.HeadNoDigest}
+		e.h.Feat = rm.Features{TagDelete: c.Feat.TagDelete, TagPage: c.Feat.TagPage, HeadNoDigest: c.Feat.HeadNoDigest, TagListNoRepo404: c.Feat.NoRepo404}
 		for _, d := range c.Feat.Delays {
 			e.h.Delays = append(e.h.Delays, time.Duration(d)*time.Microsecond)
 		}
-		r := e.h.Repo(regRepo)
-		for d, b := range pool.Blobs {
-			r.Blobs[d] = b
+		if !(c.Feat.NoRepo404 && len(c.Seed.Entries) == 0) {
+			r := e.h.Repo(regRepo)
+			for d, b := range pool.Blobs {
+				r.Blobs[d] = b
+			}
 		}
 		for _, se := range c.Seed.Entries {
+			r := e.h.Repo(regRepo)
 			pm := pool.Mans[se.Man]
 			r.Manifests[pm.Digest] = &rm.Manifest{MediaType: pm.MediaType, Body: pm.Body}
 			if se.Tag >= 0 {
@@ -299,6 +360,7 @@ func setup(c Case, ev *evid.Collector) (*env, error) {
 			conf.RegOpts = append(conf.RegOpts, reg.WithCache(time.Minute, 100))
 		}
 	}
+	e.conf = conf
 	e.rc = rcutil.New(e.m, conf)
 	return e, nil
 }
@@ -383,7 +445,7 @@ func (e *env) getTags(opts ...scheme.TagOpts) ([]string, error) {
 }
 
 // fetch performs head or get and returns digest, body (get only).
-func (e *env) fetch(r ref.Ref, get bool) (string, []byte, string, error) {
+func (e *env) fetch(r ref.Ref, get bool, noReq ...bool) (string, []byte, string, error) {
 	if get {
 		m, err := e.rc.ManifestGet(e.ctx, r)
 		if err != nil {
@@ -395,11 +457,25 @@ func (e *env) fetch(r ref.Ref, get bool) (string, []byte, string, error) {
 		}
 		return m.GetDescriptor().Digest.String(), b, manifest.GetMediaType(m), nil
 	}
-	m, err := e.rc.ManifestHead(e.ctx, r, regclient.WithManifestRequireDigest())
+	hopts := []regclient.ManifestOpts{regclient.WithManifestRequireDigest()}
+	if len(noReq) > 0 && noReq[0] {
+		hopts = nil
+	}
+	m, err := e.rc.ManifestHead(e.ctx, r, hopts...)
 	if err != nil {
 		return "", nil, "", err
 	}
 	return m.GetDescriptor().Digest.String(), nil, manifest.GetMediaType(m), nil
+}
+
+// opCtx is the context an operation is issued with.
+func (e *env) opCtx(s Step) context.Context {
+	if s.Var == "cancel" {
+		ctx, cancel := context.WithCancel(e.ctx)
+		cancel()
+		return ctx
+	}
+	return e.ctx
 }
 
 // judgeFetch compares a head/get outcome with what the model says about want
@@ -454,7 +530,7 @@ func (e *env) run(s Step, mod *model) opResult {
 				if has {
 					return opResult{viol: evid.V("get/tag-not-found", "ManifestGet of tag %q failed (%v), model says %s", t, err, manName(want))}
 				}
-				m, err = newMan(pool.Mans[s.Man]) // made total: nothing to fetch, push a fresh object
+				m, err = newMan(pool.Mans[s.Man], nil) // made total: nothing to fetch, push a fresh object
 			} else {
 				dig = m.GetDescriptor().Digest.String()
 				if !has || dig != want {
@@ -470,25 +546,54 @@ func (e *env) run(s Step, mod *model) opResult {
 			if err != nil {
 				return opResult{viol: &evid.Violation{Sig: "harness-side-layout", Msg: err.Error()}}
 			}
-		default:
-			m, err = newMan(pool.Mans[s.Man])
-		}
-		if err != nil {
-			return opResult{viol: &evid.Violation{Sig: "harness-manifest-new", Msg: err.Error()}}
 		}
 		r := e.tagRef(Tags[s.Tag])
 		if s.ByDigest {
 			r = e.digRef(dig)
 		}
-		return opResult{err: e.rc.ManifestPut(e.ctx, r, m)}
+		popts := []regclient.ManifestOpts{}
+		switch s.Var {
+		case "tagdig":
+			r = e.tagRef(Tags[s.Tag]).AddDigest(dig)
+		case "bare":
+			if !s.ByDigest && Tags[s.Tag] == "latest" {
+				r = e.base // ocidir: no tag at all; registry: ref.New already filled in "latest"
+			}
+		case "child":
+			if s.ByDigest {
+				popts = append(popts, regclient.WithManifestChild())
+			}
+		}
+		if m == nil && err == nil {
+			if s.Var == "withref" {
+				m, err = newMan(pool.Mans[s.Man], &r)
+			} else {
+				m, err = newMan(pool.Mans[s.Man], nil)
+			}
+		}
+		if err != nil {
+			return opResult{viol: &evid.Violation{Sig: "harness-manifest-new", Msg: err.Error()}}
+		}
+		return opResult{err: e.rc.ManifestPut(e.opCtx(s), r, m, popts...)}
 	case "tagdel":
-		return opResult{err: e.rc.TagDelete(e.ctx, e.tagRef(Tags[s.Tag]))}
+		return opResult{err: e.rc.TagDelete(e.opCtx(s), e.tagRef(Tags[s.Tag]))}
 	case "mandel":
 		opts := []regclient.ManifestOpts{}
 		if s.CheckRef {
 			opts = append(opts, regclient.WithManifestCheckReferrers())
 		}
-		return opResult{err: e.rc.ManifestDelete(e.ctx, e.digRef(pool.Mans[s.Man].Digest), opts...)}
+		r := e.digRef(pool.Mans[s.Man].Digest)
+		switch s.Var {
+		case "tagdig":
+			r = e.tagRef(Tags[s.Tag]).AddDigest(pool.Mans[s.Man].Digest)
+		case "delman":
+			dm, err := newMan(pool.Mans[s.Man], nil)
+			if err != nil {
+				return opResult{viol: &evid.Violation{Sig: "harness-manifest-new", Msg: err.Error()}}
+			}
+			opts = append(opts, regclient.WithManifest(dm))
+		}
+		return opResult{err: e.rc.ManifestDelete(e.opCtx(s), r, opts...)}
 	case "close":
 		return opResult{err: e.rc.Close(e.ctx, e.base)}
 	case "head", "get":
@@ -499,6 +604,9 @@ func (e *env) run(s Step, mod *model) opResult {
 			want = pool.Mans[s.Man].Digest
 			st = mod.file[want]
 			r, what = e.digRef(want), "digest "+manName(want)
+			if s.Var == "tagdig" {
+				r, what = e.tagRef(Tags[s.Tag]).AddDigest(want), fmt.Sprintf("%s@%s", Tags[s.Tag], manName(want))
+			}
 		} else {
 			t := Tags[s.Tag]
 			want = mod.tags[t]
@@ -506,8 +614,14 @@ func (e *env) run(s Step, mod *model) opResult {
 				st = mod.file[want]
 			}
 			r, what = e.tagRef(t), fmt.Sprintf("tag %q", t)
+			if s.Var == "bare" && t == "latest" {
+				r, what = e.base, "the reference without tag (latest)"
+			}
 		}
-		dig, body, mt, err := e.fetch(r, s.Op == "get")
+		dig, body, mt, err := e.fetch(r, s.Op == "get", s.Var == "noreq")
+		if s.Var == "noreq" && err == nil && dig == "" {
+			dig = want // without WithManifestRequireDigest a registry that sends no digest header leaves it empty
+		}
 		if sym, msg := judgeFetch(what, s.Op == "get", want, st, dig, body, mt, err); sym != "" {
 			kind := "tag-"
 			if s.ByDigest {
@@ -528,8 +642,8 @@ func (e *env) run(s Step, mod *model) opResult {
 		}
 		got, err := e.getTags(opts...)
 		if err != nil {
-			if e.lay && !e.prevRaw.Exists && len(mod.tags) == 0 {
-				return opResult{} // not yet a layout (no index.json): nothing to list
+			if len(mod.tags) == 0 && ((e.lay && !e.prevRaw.Exists) || e.repoAbsent()) {
+				return opResult{} // not yet a layout (no index.json) / a repository the registry does not know yet: nothing to list
 			}
 			return opResult{err: err, viol: evid.V("list/taglist-error", "TagList(limit=%d,last=%q) failed: %v", s.Limit, last, err)}
 		}
@@ -581,6 +695,9 @@ func apply(mod *model, s Step) expect {
 		case "side":
 			dig = pool.Mans[s.SrcTag].Digest
 		}
+		if s.ByDigest && s.Var == "child" {
+			return mod.putChild(dig)
+		}
 		if s.ByDigest {
 			return mod.putDigest(dig)
 		}
@@ -594,6 +711,11 @@ func apply(mod *model, s Step) expect {
 }
 
 func describe(s Step) string {
+	if s.Var != "" {
+		v := s.Var
+		s.Var = ""
+		return describe(s) + " [" + v + "]"
+	}
 	switch s.Op {
 	case "put":
 		src := fmt.Sprintf("M%d", s.Man)
@@ -739,7 +861,7 @@ func (e *env) verify(ownTag string, ownMan string) (string, string) {
 	// 1. tag listing, all pages
 	got, err := e.getTags()
 	if err != nil {
-		if !(e.lay && !readRawIndex(e.dir).Exists && len(mod.tags) == 0) {
+		if !(len(mod.tags) == 0 && ((e.lay && !readRawIndex(e.dir).Exists) || e.repoAbsent())) {
 			return "taglist-error", fmt.Sprintf("TagList failed: %v", err)
 		}
 	}
@@ -790,6 +912,9 @@ func (e *env) verify(ownTag string, ownMan string) (string, string) {
 		e.m.Lock()
 		defer e.m.Unlock()
 		r := e.h.Repos[regRepo]
+		if r == nil {
+			r = &rm.Repo{}
+		}
 		rt := []string{}
 		for t, d := range r.Tags {
 			rt = append(rt, t+"="+manName(d))
@@ -905,6 +1030,18 @@ func (e *env) verify(ownTag string, ownMan string) (string, string) {
 	}
 	e.prevRaw = ri
 	return "", ""
+}
+
+// repoAbsent: the registry answers tags/list of an unknown repository with 404 and
+// nothing was ever written to this one.
+func (e *env) repoAbsent() bool {
+	if e.lay || !e.c.Feat.NoRepo404 {
+		return false
+	}
+	e.m.Lock()
+	defer e.m.Unlock()
+	_, ok := e.h.Repos[regRepo]
+	return !ok
 }
 
 func inPool(t string) bool {
@@ -1057,6 +1194,7 @@ func deviations(s Step, pre rawIndex, preMod *model, err error) []deviation {
 // ---- the check ------------------------------------------------------------------
 
 func check(c Case, ev *evid.Collector) (viol *evid.Violation) {
+	pool = viewPool(c.Pool)
 	e, err := setup(c, ev)
 	if err != nil {
 		return &evid.Violation{Sig: "harness-setup", Msg: err.Error()}
@@ -1068,6 +1206,18 @@ func check(c Case, ev *evid.Collector) (viol *evid.Violation) {
 
 	e.class("system:" + c.System)
 	e.class("seed:" + c.Seed.Kind)
+	for _, pm := range pool.Mans[2:] {
+		e.class("pool:" + pm.Name + "-" + pm.MediaType[strings.LastIndex(pm.MediaType, ".")+1:] + "-" + pm.Digest[:6])
+	}
+	if c.CloseEach {
+		e.class("case:close-after-each-op")
+	}
+	if c.Fresh {
+		e.class("case:fresh-client-per-step")
+	}
+	if c.Feat.NoRepo404 && !e.lay {
+		e.class("reg:no-repo-404")
+	}
 	if e.lay {
 		adj := false
 		for i, se := range c.Seed.Entries {
@@ -1177,6 +1327,9 @@ func check(c Case, ev *evid.Collector) (viol *evid.Violation) {
 // step executes one step (plain or batch), advances the model, judges the
 // result and verifies the whole state.
 func (e *env) step(s Step) *evid.Violation {
+	if e.c.Fresh {
+		e.rc = rcutil.New(e.m, e.conf)
+	}
 	if s.Op != "batch" {
 		return e.plain(s)
 	}
@@ -1211,6 +1364,11 @@ func (e *env) step(s Step) *evid.Violation {
 	}
 	close(start)
 	wg.Wait()
+	if e.lay && e.c.CloseEach {
+		if err := e.rc.Close(e.ctx, e.base); err != nil {
+			return evid.V("batch:close/unexpected-error", "Close after the concurrent batch failed: %v", err)
+		}
+	}
 	for i, b := range s.Batch {
 		e.note(b, e.mod)
 		ex := apply(e.mod, b)
@@ -1261,6 +1419,9 @@ func (e *env) blockedByKnown(batch []Step) bool {
 
 // note records evidence classes of a step about to be applied to mod.
 func (e *env) note(s Step, mod *model) {
+	if s.Var != "" {
+		e.class("var:" + s.Op + "-" + s.Var)
+	}
 	switch s.Op {
 	case "tagdel":
 		if d, ok := mod.tags[Tags[s.Tag]]; ok {
@@ -1347,15 +1508,39 @@ func (e *env) plain(s Step) *evid.Violation {
 	}
 	// strict judgement
 	strict := preMod.clone()
-	ex := apply(strict, s)
+	var v *evid.Violation
+	switch {
+	case s.Var == "cancel":
+		// an already cancelled context: either outcome; an error must have been a no-op
+		if res.err == nil {
+			apply(strict, s)
+		}
+	case s.Op == "put" && s.Var == "tagdig":
+		// "repo:tag@digest": the manifest must be stored; whether the tag moves too differs between
+		// the schemes and is not stated — it either keeps its value or names the pushed manifest
+		as := s
+		as.Var, as.ByDigest = "", true
+		if res.err == nil {
+			if got, _, _, err := e.fetch(e.tagRef(ownTag), false); err == nil && got == pushedDigest(preMod, s) {
+				as.ByDigest = false
+			}
+		}
+		v = judgeResult(as, apply(strict, as), res.err)
+	default:
+		v = judgeResult(s, apply(strict, s), res.err)
+	}
 	e.mod = strict
-	v := judgeResult(s, ex, res.err)
+	if v == nil && e.lay && e.c.CloseEach && (s.Op == "put" || s.Op == "tagdel" || s.Op == "mandel") {
+		if err := e.rc.Close(e.ctx, e.base); err != nil {
+			v = evid.V("close/unexpected-error", "Close after %s failed: %v", describe(s), err)
+		}
+	}
 	if v == nil {
 		if sym, msg := e.verify(ownTag, ownMan); sym != "" {
 			v = evid.V(op+"/"+sym, "%s", msg)
 		}
 	}
-	if v == nil || !e.lay {
+	if v == nil || !e.lay || s.Var != "" {
 		return v
 	}
 	// does exactly one specific root cause explain everything that is observable?
